@@ -214,6 +214,7 @@ theorem incU64_not_err {ε : Type} {a : Nat} {site : String} {e : ε} : (incU64 
 theorem findOrAdd_clients (s : NetcodeServer) (e : ConnectTokenEntry) :
     (s.findOrAddConnectTokenEntry e).1.clients = s.clients := by
   unfold NetcodeServer.findOrAddConnectTokenEntry
+  extract_lets st
   split <;> rfl
 
 theorem hcr_post (a : AEAD) (cl : Slots) (s : NetcodeServer) (hs : ids s.clients = ids cl) (addr : Addr) (vi : Bytes)
@@ -229,6 +230,7 @@ theorem hcr_post (a : AEAD) (cl : Slots) (s : NetcodeServer) (hs : ids s.clients
   · trivial
   · exact hs
   rename_i tok htok
+  extract_lets inHost ac ic mac
   split
   · exact hs
   split
@@ -237,25 +239,273 @@ theorem hcr_post (a : AEAD) (cl : Slots) (s : NetcodeServer) (hs : ids s.clients
   · exact hs
   split
   rename_i s1 added hfa
-  have hs1 : s1.clients = s.clients := by
-    have := findOrAdd_clients s { address := addr, time := s.currentTime, mac := d.drop (C.NETCODE_CONNECT_TOKEN_PRIVATE_BYTES - C.NETCODE_MAC_BYTES) }
-    rw [hfa] at this; exact this
-  split
-  · show ids s1.clients = ids cl
-    rw [hs1]; exact hs
-  split
-  · refine post_bind (fun e s' he => ?_) (fun out _ => ?_)
-    · rw [lift_err he]; show ids s1.clients = ids cl; rw [hs1]; exact hs
-    · refine post_bind (fun e s' he => absurd he incU64_not_err) (fun g _ => ?_)
-      show ids s1.clients = ids cl
-      rw [hs1]; exact hs
-  · refine post_bind (fun e s' he => absurd he incU64_not_err) (fun cs _ => ?_)
-    refine post_bind (fun e s' he => ?_) (fun pk _ => ?_)
-    · rw [lift_err he]; show ids s1.clients = ids cl; rw [hs1]; exact hs
-    refine post_bind (fun e s' he => ?_) (fun out _ => ?_)
-    · rw [lift_err he]; show ids s1.clients = ids cl; rw [hs1]; exact hs
-    refine post_bind (fun e s' he => absurd he incU64_not_err) (fun g _ => ?_)
+  have hs1 : ids s1.clients = ids cl := by
+    have := findOrAdd_clients s { address := addr, time := s.currentTime, mac := mac }
+    rw [hfa] at this
     show ids s1.clients = ids cl
-    rw [hs1]; exact hs
+    rw [this]; exact hs
+  split
+  · exact hs1
+  split
+  · extract_lets s2
+    refine post_bind (fun e s' he => ?_) (fun out _ => ?_)
+    · rw [lift_err he]; exact hs1
+    · refine post_bind (fun e s' he => absurd he incU64_not_err) (fun g _ => ?_)
+      exact hs1
+  · refine post_bind (fun e s' he => absurd he incU64_not_err) (fun cs _ => ?_)
+    extract_lets s2
+    refine post_bind (fun e s' he => ?_) (fun pk _ => ?_)
+    · rw [lift_err he]; exact hs1
+    refine post_bind (fun e s' he => ?_) (fun out _ => ?_)
+    · rw [lift_err he]; exact hs1
+    refine post_bind (fun e s' he => absurd he incU64_not_err) (fun g _ => ?_)
+    exact hs1
+
+theorem mem_ids_of_at {cl : Slots} {i : Nat} {c : Connection} (h : cl[i]? = some (some c)) : c.clientId ∈ ids cl := by
+  obtain ⟨l1, l2, e1, _⟩ := ids_set cl i (some c) none h
+  rw [e1]; simp [optId]
+
+theorem ppi_post (a : AEAD) (s : NetcodeServer) (addr : Addr) (buf : Bytes) :
+    Post s.clients (NetcodeServer.processPacketInternal a s addr buf) := by
+  unfold NetcodeServer.processPacketInternal
+  split
+  · exact rfl
+  split
+  · -- datagram from the address of a connected client
+    rename_i slot client hfa
+    have hat := findAddr_some hfa
+    split
+    rename_i r rp hdec
+    extract_lets client1 s1 client2
+    have hs1 : ids s1.clients = ids s.clients := ids_set_same hat rfl
+    have e0 : s1.clients.set slot none = s.clients.set slot none := List.set_set ..
+    have e2 : s1.clients.set slot (some client2) = s.clients.set slot (some client2) := List.set_set ..
+    have hs2 : ids (s1.clients.set slot (some client2)) = ids s.clients := by
+      rw [e2]; exact ids_set_same hat rfl
+    have hdis : TStep s.clients (s1.clients.set slot none) (.clientDisconnected client1.clientId addr none) := by
+      rw [e0]; exact tstep_remove hat addr none
+    split
+    · trivial
+    · exact hs1
+    · split
+      · split
+        · exact hdis
+        · exact ⟨hs2, (mem_ids_of_at hat : client.clientId ∈ ids s.clients)⟩
+        · exact hs2
+        · exact hs1
+      · exact hs1
+  split
+  · -- datagram from the address of a pending client
+    rename_i pending hpf
+    split
+    rename_i r rp hdec
+    extract_lets pending1 s1 pending2 s2 s3
+    split
+    · trivial
+    · exact rfl
+    · 
+      split
+      · exact hcr_post a s.clients s2 rfl _ _ _ _ _ _
+      · refine post_bind (fun e s' he => ?_) (fun ct _ => ?_)
+        · rw [lift_err he]
+        split
+        · exact rfl
+        rename_i hct
+        split
+        · exact rfl
+        rename_i hfree
+        split
+        · refine post_bind (fun e s' he => ?_) (fun out _ => ?_)
+          · rw [lift_err he]
+          refine post_bind (fun e s' he => absurd he incU64_not_err) (fun g _ => ?_)
+          exact rfl
+        · rename_i clientIndex hff
+          extract_lets pending3 packet
+          refine post_bind (fun e s' he => ?_) (fun out _ => ?_)
+          · rw [lift_err he]
+          refine post_bind (fun e s' he => absurd he incU64_not_err) (fun sq _ => ?_)
+          extract_lets pending4
+          have hid : ct.clientId = pending.clientId := by
+            apply Classical.byContradiction
+            intro hn
+            exact hct (Or.inl hn)
+          have hnot : pending.clientId ∉ ids s.clients := by
+            intro hm
+            apply hfree
+            rw [hid]
+            exact findSlot_isSome.mpr hm
+          obtain ⟨l1, l2, e1, e2⟩ := ids_set s.clients clientIndex none (some pending4) (firstFree_some hff)
+          exact ⟨hnot, l1, l2, by simpa [optId] using e1, by simpa [optId] using e2⟩
+      · exact rfl
+  · -- datagram from an unknown address
+    split
+    rename_i r rp hdec
+    split
+    · trivial
+    · exact rfl
+    · split
+      · exact hcr_post a s.clients s rfl _ _ _ _ _ _
+      · trivial
+
+/-- **`process_packet`**, any datagram from any address: the id table changes exactly as the returned
+    `ServerResult` says -/
+theorem processPacket_tstep {a : AEAD} {s s' : NetcodeServer} {addr : Addr} {buf : Bytes} {r : ServerResult}
+    (h : s.processPacket a addr buf = .ok (r, s')) : TStep s.clients s'.clients r := by
+  have hp := ppi_post a s addr buf
+  unfold NetcodeServer.processPacket at h
+  cases hx : NetcodeServer.processPacketInternal a s addr buf with
+  | ok v =>
+    rw [hx] at h hp
+    simp only [Res.ok.injEq] at h
+    subst h
+    exact hp
+  | err e =>
+    obtain ⟨e, s1⟩ := e
+    rw [hx] at h hp
+    simp only [Res.ok.injEq, Prod.mk.injEq] at h
+    obtain ⟨h1, h2⟩ := h
+    subst h1; subst h2
+    exact hp
+  | panic m => rw [hx] at h; cases h
+
+/-- the same for the infallible-by-type calls -/
+def PostE (cl : Slots) : Res Empty (ServerResult × NetcodeServer) → Prop
+  | .ok (r, s') => TStep cl s'.clients r
+  | _ => True
+
+theorem postE_bind {α : Type} {cl : Slots} {x : Res Empty α} {f : α → Res Empty (ServerResult × NetcodeServer)}
+    (hf : ∀ v, x = .ok v → PostE cl (f v)) : PostE cl (x >>= f) := by
+  cases x with
+  | ok v => exact hf v rfl
+  | err e => exact e.elim
+  | panic m => trivial
+
+theorem updateClient_post (a : AEAD) (s : NetcodeServer) (id : Nat) : PostE s.clients (s.updateClient a id) := by
+  unfold NetcodeServer.updateClient
+  split
+  · exact rfl
+  rename_i slot hslot
+  obtain ⟨c, hat, hid⟩ := findSlot_some hslot
+  split
+  · exact rfl
+  rename_i client hget
+  have hc : client = c := by
+    have := getD_eq hget
+    rw [hat] at this
+    simp only [Option.some.injEq] at this
+    exact this.symm
+  subst hc
+  refine postE_bind (fun timedOut _ => ?_)
+  extract_lets client1 s1 packet
+  have hdis : ∀ p, TStep s.clients (s.clients.set slot none) (.clientDisconnected id client1.addr p) := by
+    intro p
+    have := tstep_remove hat client1.addr p
+    rw [hid] at this
+    exact this
+  split
+  · split
+    · trivial
+    · exact hdis none
+    · exact hdis (some _)
+  · apply postE_bind
+    intro due _
+    split
+    · split
+      · trivial
+      · exact rfl
+      · refine postE_bind (fun sq _ => ?_)
+        extract_lets client2
+        show ids (s.clients.set slot (some client2)) = ids s.clients
+        refine ids_set_same hat ?_
+        show [client1.clientId] = [client.clientId]
+        have : client1.clientId = client.clientId := by
+          show (if timedOut = true then _ else _ : Connection).clientId = _
+          split <;> rfl
+        rw [this]
+    · exact rfl
+
+theorem updateClient_tstep {a : AEAD} {s s' : NetcodeServer} {id : Nat} {r : ServerResult}
+    (h : s.updateClient a id = .ok (r, s')) : TStep s.clients s'.clients r := by
+  have hp := updateClient_post a s id
+  rw [h] at hp
+  exact hp
+
+/-- **`disconnect(id)`**: a known id is removed and reported `ClientDisconnected id`; an unknown id is a no-op -/
+theorem disconnect_spec {a : AEAD} {s s' : NetcodeServer} {id : Nat} {r : ServerResult}
+    (h : s.disconnect a id = .ok (r, s')) :
+    TStep s.clients s'.clients r ∧
+    (id ∈ ids s.clients → ∃ ad p, r = .clientDisconnected id ad p) ∧
+    (id ∉ ids s.clients → r = .none ∧ s' = s) := by
+  unfold NetcodeServer.disconnect at h
+  split at h
+  · rename_i hnone
+    simp only [Res.ok.injEq, Prod.mk.injEq] at h
+    obtain ⟨h1, h2⟩ := h
+    subst h1; subst h2
+    exact ⟨rfl, fun hm => absurd hm (findSlot_none.mp hnone), fun _ => ⟨rfl, rfl⟩⟩
+  · rename_i slot hslot
+    obtain ⟨c, hat, hid⟩ := findSlot_some hslot
+    have hmem : id ∈ ids s.clients := hid ▸ mem_ids_of_at hat
+    split at h
+    · cases h
+    rename_i client hget
+    have hc : client = c := by
+      have := getD_eq hget
+      rw [hat] at this
+      simp only [Option.some.injEq] at this
+      exact this.symm
+    subst hc
+    have hdis : ∀ p, TStep s.clients (s.clients.set slot none) (.clientDisconnected id client.addr p) := by
+      intro p
+      have := tstep_remove hat client.addr p
+      rw [hid] at this
+      exact this
+    extract_lets s1 at h
+    split at h
+    · cases h
+    · simp only [Res.ok.injEq, Prod.mk.injEq] at h
+      obtain ⟨h1, h2⟩ := h
+      subst h1; subst h2
+      exact ⟨hdis _, fun _ => ⟨_, _, rfl⟩, fun hn => absurd hmem hn⟩
+    · simp only [Res.ok.injEq, Prod.mk.injEq] at h
+      obtain ⟨h1, h2⟩ := h
+      subst h1; subst h2
+      exact ⟨hdis _, fun _ => ⟨_, _, rfl⟩, fun hn => absurd hmem hn⟩
+
+theorem update_clients {s s' : NetcodeServer} {d : Nat} (h : s.update d = .ok s') : s'.clients = s.clients := by
+  unfold NetcodeServer.update at h
+  cases hd : (durAdd s.currentTime d "server.rs update: current_time += duration" : Res Empty Nat) with
+  | ok now => rw [hd] at h; simp only [Res.bind_ok, Res.pure_eq, Res.ok.injEq] at h; subst h; rfl
+  | err e => exact e.elim
+  | panic m => rw [hd] at h; cases h
+
+/-- **`generate_payload_packet`**: only for an id in the table, which stays as it is -/
+theorem generatePayloadPacket_ids {a : AEAD} {s s' : NetcodeServer} {id : Nat} {p : Bytes} {dg : Addr × Bytes}
+    (h : s.generatePayloadPacket a id p = .ok (dg, s')) : ids s'.clients = ids s.clients ∧ id ∈ ids s.clients := by
+  unfold NetcodeServer.generatePayloadPacket at h
+  split at h
+  · cases h
+  split at h
+  · rename_i slot client hslot hfind
+    obtain ⟨c, hat, hid⟩ := findSlot_some hslot
+    have hcid := findById_some hfind
+    cases he : (Packet.payload p).encode a C.NETCODE_MAX_PACKET_BYTES s.protocolId (some (client.sequence, client.sendKey)) with
+    | ok out =>
+      rw [he] at h
+      simp only [Res.bind_ok] at h
+      cases hi : (incU64 client.sequence "server.rs generate_payload_packet: client.sequence += 1" : NRes Nat) with
+      | ok sq =>
+        rw [hi] at h
+        simp only [Res.bind_ok, Res.pure_eq, Res.ok.injEq, Prod.mk.injEq] at h
+        obtain ⟨_, h2⟩ := h
+        subst h2
+        refine ⟨ids_set_same hat ?_, hid ▸ mem_ids_of_at hat⟩
+        show [client.clientId] = [c.clientId]
+        rw [hcid, hid]
+      | err e => rw [hi] at h; cases h
+      | panic m => rw [hi] at h; cases h
+    | err e => rw [he] at h; cases h
+    | panic m => rw [he] at h; cases h
+  · cases h
 
 end RenetVerif.GI
